@@ -2,6 +2,7 @@
 (a) API level: Definition.invoke / NewCommand.invoke / expandDef on token lists vs Model/Expand.v (proved = Spec/MacroSpec.v on the
     normal form); (b) program level: generated macro programs vs the reference evaluator Spec/MacroLang.v."""
 import macrolang as ML
+import enginelang as EL
 
 ID = 'C02'
 PINS = [('plasTeX/__init__.py', 'expandDef'), ('plasTeX/__init__.py', 'Definition.invoke'), ('plasTeX/__init__.py', 'NewCommand.invoke'),
@@ -340,6 +341,52 @@ def streams(rng, tier, boost):
         out.append(('soup', rand_soup(rng)))
     for _ in range((500 if tier == 'quick' else 8000) * boost):
         out.append(('programs', dict(kind='prog', prog=rand_prog(rng, rng.choice([1, 2, 2, 3])))))
+    out += engine_streams(rng, tier, boost)
+    return out
+
+
+# ---- the expansion engine (Model/Engine.v) against TeX.__iter__ on token lists ------------------
+
+_TOKCTX = []
+
+
+def real_tokenize(src):
+    """the token list the real Tokenizer (from $VERIF_REPO) gives for a source string, as (category, code points) pairs"""
+    from plasTeX.Tokenizer import Tokenizer
+    if not _TOKCTX:
+        from plasTeX.TeX import TeXDocument
+        import texrun
+        texrun.quiet()
+        _TOKCTX.append(TeXDocument().context)
+    return [[int(t.catcode), [ord(ch) for ch in str(t)]] for t in Tokenizer(src, _TOKCTX[0])]
+
+
+def engine_case(prog, style):
+    src = EL.to_source(prog, style)
+    try:
+        toks = real_tokenize(src)
+    except Exception as e:      # a broken Tokenizer is C01's business: the case is dropped here
+        return None
+    names = [n for n in EL.names_in(toks) if n not in EL.PRIMS]
+    return dict(kind='engine', toks=toks, names=names, prog=prog, src=src, style=style)
+
+
+def engine_streams(rng, tier, boost):
+    out = []
+    q = tier == 'quick'
+    for _ in range((700 if q else 8000) * boost):
+        f1 = rng.random() < 0.4
+        c = engine_case(EL.gen_prog(rng, f1_only=f1), rng.choice(['f', 'ml']) if f1 else 'ml')
+        if c is not None:
+            out.append(('engine', c))
+    for _ in range((500 if q else 6000) * boost):
+        toks = EL.gen_soup(rng)
+        out.append(('engine-soup', dict(kind='engine', toks=toks, names=[n for n in EL.names_in(toks) if n not in EL.PRIMS] + ['zqa'][:0])))
+    for _ in range((300 if q else 3000) * boost):
+        f1 = rng.random() < 0.5
+        out.append(('print', dict(kind='print', prog=EL.gen_prog(rng, f1_only=f1, max_params=rng.choice([3, 9]), delims=False, allow_nested=False))))
+    for toks in EL.all_small(2 if q else 3):
+        out.append(('engine-small', dict(kind='engine', toks=toks, names=[n for n in EL.names_in(toks) if n not in EL.PRIMS])))
     return out
 
 
@@ -360,10 +407,19 @@ def describe(case):
     if case['kind'] == 'nc':
         return dict(newcommand=dict(nargs=case['nargs'], opt=(show_toks(case['opt']) if case['opt'] is not None else None), body=show_toks(case['body'])),
                     call='\\zzmac ' + show_toks(case['stream']))
+    if case['kind'] == 'engine':
+        return dict(tokens=EL.show(case['toks']), source=case.get('src'))
+    if case['kind'] == 'print':
+        return dict(source=EL.to_source(case['prog'], 'f'))
     return ML.to_source(case['prog'])[0]
 
 
 def model_input(case):
+    if case['kind'] == 'print':
+        return [3, ML.w_nodes(case['prog'])]
+    if case['kind'] == 'engine':
+        x = [case['toks'], [[ord(ch) for ch in n] for n in case['names']]]
+        return [2, x, ML.w_nodes(case['prog'])] if case.get('prog') is not None else [2, x]
     if case['kind'] == 'def':
         return [0, [0, case['args'], case['body'], case['stream']]]
     if case['kind'] == 'nc':
@@ -394,7 +450,53 @@ def obs_tokens(toks):
     return [[int(t.catcode), [ord(ch) for ch in str(t)]] for t in toks if t is not None]
 
 
+ELEM_CLASS = {'bgroup': 0, 'egroup': 1, 'def_': 2, 'gdef': 3, 'relax': 4, 'else_': 5, 'fi': 6}
+
+
+def run_engine(case):
+    import plasTeX
+    from plasTeX.TeX import TeX, TeXDocument
+    doc = TeXDocument()
+    tex = TeX(doc)
+    tex.disableLogging()
+    ctx = doc.context
+    for n in case['names']:
+        if n in ctx:
+            return ['skip', 'a name of the case is a macro of the base context', n]
+    tex.input(mk_tokens(case['toks']))
+    out = []
+    try:
+        for t in tex:
+            if t.nodeType == 1:
+                cls = 7 if isinstance(t, plasTeX.UnrecognizedMacro) else ELEM_CLASS.get(type(t).__name__, 99)
+                out.append([16 + cls, [ord(ch) for ch in str(t.nodeName)]])
+            else:
+                out.append([int(t.catcode), [ord(ch) for ch in str(t)]])
+    except Exception as e:
+        return [-2, type(e).__name__]
+    means = []
+    for n in case['names']:
+        c = None
+        for item in reversed(ctx.contexts):
+            if dict.__contains__(item, n):
+                c = dict.__getitem__(item, n)
+                break
+        if c is None:
+            means.append([3])
+        elif isinstance(c, type) and issubclass(c, plasTeX.Definition):
+            means.append([0, obs_tokens(c.args or []), obs_tokens(c.definition or [])])
+        elif isinstance(c, type) and issubclass(c, plasTeX.UnrecognizedMacro):
+            means.append([2])
+        else:
+            means.append([1])
+    return [0, out, len(ctx.contexts), means]
+
+
 def run_impl(case):
+    if case['kind'] == 'engine':
+        return run_engine(case)
+    if case['kind'] == 'print':
+        return [real_tokenize(EL.to_source(case['prog'], 'f')), 1 if EL.in_f1(case['prog']) else 0]
     if case['kind'] in ('def', 'nc'):
         from plasTeX.TeX import TeX, TeXDocument
         doc = TeXDocument()
@@ -417,7 +519,15 @@ def run_impl(case):
     return ML.run_source(src, len(cs))
 
 
+def engine_text(obs):
+    return ''.join(''.join(map(chr, t)) for c, t in obs if c in (6, 11, 12))
+
+
 def nontrivial(case, io):
+    if case['kind'] == 'print':
+        return len(case['prog']) > 1
+    if case['kind'] == 'engine':
+        return any(c == 0 and ''.join(map(chr, t)) not in EL.PRIMS for c, t in case['toks']) and isinstance(io, list) and io[:1] == [0]
     if case['kind'] in ('def', 'nc'):
         return any(t == HASH for t in case['body']) and len(case['stream']) >= 2
     return calls_with_args(case['prog'])
@@ -425,6 +535,16 @@ def nontrivial(case, io):
 
 def tags(case, io):
     t = [case['kind']]
+    if case['kind'] == 'print':
+        return t + ['print:F1' if EL.in_f1(case['prog']) else 'print:beyond-F1']
+    if case['kind'] == 'engine':
+        if isinstance(io, list) and io[:1] == [-2]:
+            t.append('engine:impl-raises')
+        if isinstance(io, list) and io[:1] == ['skip']:
+            t.append('engine:skipped')
+        if case.get('prog') is not None:
+            t.append('engine:F1' if EL.in_f1(case['prog']) else 'engine:beyond-F1')
+        return t
     if case['kind'] == 'def':
         t.append('params=%d' % sum(1 for x in case['args'] if x == HASH))
     if case['kind'] == 'nc':
@@ -434,7 +554,45 @@ def tags(case, io):
     return t
 
 
+def judge_engine(case, io, mo):
+    if mo == [-3] or not isinstance(mo, list) or not mo or not isinstance(mo[0], list):
+        return None if mo == [-3] else dict(violation=False, key='C02:engine:model', expected=mo, what='the engine Model gave no answer')
+    eng = mo[0]
+    den = mo[1] if len(mo) > 1 else None
+    if isinstance(io, list) and io[:1] == ['skip']:
+        return None
+    if eng[:1] == [-5]:
+        return None          # the Model says it does not follow the code here (octal/hex constants, ...): not compared
+    if eng[:1] == [-2]:
+        agree = isinstance(io, list) and io[:1] == [-2]
+    else:
+        agree = io == eng
+    # the Spec oracle (reference evaluator) on the implementation's own output, when the case is a program it gives a meaning to
+    wrong = False
+    exp = None
+    if den is not None and isinstance(den, list) and den[:1] == [0]:
+        wname = EL.fword if case.get('style') == 'f' else ML.word
+        exp = ''.join('#' if w == -1 else wname(w) for w in den[1])
+        wrong = not (isinstance(io, list) and io[:1] == [0] and engine_text(io[1]) == exp)
+    if agree and not wrong:
+        return None
+    if wrong:
+        kind = 'raises' if io[:1] in ([-2], ['raise']) else ('hang' if io[:1] == ['hang'] else 'wrong-text')
+        return dict(violation=True, key='C02:engine:' + kind, expected=exp,
+                    what='expansion loop yields %s, TeX rules give the text %s' % (str(io)[:300], exp))
+    return dict(violation=False, key='C02:engine:differs', expected=eng,
+                what='TeX.__iter__ yields %s, the engine Model %s' % (str(io)[:300], str(eng)[:300]))
+
+
 def judge(case, io, mo):
+    if case['kind'] == 'engine':
+        return judge_engine(case, io, mo)
+    if case['kind'] == 'print':
+        # Spec/MacroPrint.print against the real Tokenizer on the printed source (and the fragment test against its Python twin):
+        # a difference is about the printing convention of the theorem, not about the property
+        if isinstance(mo, list) and len(mo) == 3 and isinstance(io, list) and len(io) == 2 and mo[0] == io[0] and mo[1] == io[1]:
+            return None
+        return dict(violation=False, key='C02:print', expected=mo, what='Tokenizer gives %s, Spec/MacroPrint.print %s' % (str(io)[:300], str(mo)[:300]))
     if case['kind'] in ('def', 'nc'):
         if io == mo:
             return None
@@ -453,6 +611,21 @@ def judge(case, io, mo):
 
 
 def shrink(case):
+    if case['kind'] == 'print':
+        return
+    if case['kind'] == 'engine':
+        if case.get('prog') is not None:
+            import props.C03 as C03
+            for v in C03.shrink(dict(kind='prog', prog=case['prog'])):
+                c = engine_case(v['prog'], case.get('style', 'ml'))
+                if c is not None:
+                    yield c
+        else:
+            t = case['toks']
+            for i in range(len(t)):
+                u = t[:i] + t[i + 1:]
+                yield dict(kind='engine', toks=u, names=[n for n in EL.names_in(u) if n not in EL.PRIMS])
+        return
     if case['kind'] in ('def', 'nc'):
         for f in ('stream', 'body', 'args'):
             if f in case:
